@@ -10,7 +10,7 @@ def run(tier):
              en.curated(names=["mixed14", "inject", "headless"], manual=True))
     classes = en.cls("CONSUME", "REQ")
     args = ["--tier", tier, "--dev", "2" if thorough else "1", "--batch", "1", "--classes", str(classes),
-            "--deadline", str(1200 if thorough else 120)]
+            "--deadline", str(en.TD if thorough else 120)]
     if thorough:
         # program families: all ordered trees with <= 4 states and the spine family (kind chains of depth 3 / 4), d = 1, single requests
         fam = en.systematic(4) + en.spines()
@@ -18,7 +18,7 @@ def run(tier):
             p.args = ["--dev", "1", "--batch", "1", "--deadline", "90"]
         progs += fam
         chk.coverage["program_families"] = {"programs": len(fam), "rule": "all ordered trees with <= 4 states (every region kind headed; composite/resumable/orthogonal also headless) + spine family (kind chains of depth 3 in two orientations, depth 4 over C/O/R)"}
-    res = en.run_all(chk, "C05", progs, args, timeout=(2000 if thorough else 300))
+    res = en.run_all(chk, "C05", progs, args, timeout=(en.TD + 900 if thorough else 300))
     en.aggregate(chk, res, "C05")
     chk.coverage["explanation"] = (
         "For every reachable configuration (BFS fixpoint) x {update, react, query} x {TopDown, BottomUp} x every choice "
